@@ -42,8 +42,8 @@ fn name_variants(rng: &mut Rng, key: &str, ident: &str) -> Vec<(&'static str, St
 }
 
 pub fn run(ctx: &Ctx, reg: &Registry) -> i32 {
-    let n_cases: u64 = ctx.tier.pick(150, 5000);
-    let n_var: u64 = ctx.tier.pick(2, 12);
+    let n_cases: u64 = ctx.tier.pick(500, 8000);
+    let n_var: u64 = ctx.tier.pick(4, 16);
     let acc = ctx.par(|shard, n| {
         let mut acc = Acc::new();
         let mut unit = 0u64;
